@@ -3,6 +3,7 @@ package sa
 import (
 	"fmt"
 	"go/types"
+	"golang.org/x/tools/go/ssa"
 	"os"
 	"path/filepath"
 	"runtime/debug"
@@ -17,7 +18,9 @@ type Ctx struct {
 	A *Anchors
 	R *Report
 
-	madeMemo map[*types.Var]bool
+	madeMemo  map[*types.Var]bool
+	portCover [2]bool
+	guardBusy map[*ssa.Function]bool
 }
 
 // PropertySpec describes one property's rule set.
